@@ -3,8 +3,22 @@ package kbucket
 import (
 	"bytes"
 
+	ocommon "github.com/ontio/ontology/common"
 	"github.com/ontio/ontology/p2pserver/common"
 )
+
+// c37Dist is the reference XOR distance, computed from the serialized ids (independent of PeerId.Distance).
+func c37Dist(a, b common.PeerId) []byte {
+	sa, sb := ocommon.NewZeroCopySink(nil), ocommon.NewZeroCopySink(nil)
+	a.Serialization(sa)
+	b.Serialization(sb)
+	x, y := sa.Bytes(), sb.Bytes()
+	d := make([]byte, len(x))
+	for i := range x {
+		d[i] = x[i] ^ y[i]
+	}
+	return d
+}
 
 // C37: the DHT routing table stays structurally valid under any sequence of updates and removals.
 
@@ -13,6 +27,18 @@ func c37ID(tag string) common.PeerId {
 	// equality with it, are all reachable
 	// remote peers never carry the local id (the handshake rejects a connection to oneself), so the
 	// common-prefix length stays below 8*idbytes and the table has at most that many buckets
+	if param("idbytes") == 3 {
+		// first and last byte vary: peers may differ only in the least significant byte of the id
+		var raw [20]byte
+		raw[0] = nondetU8(tag)
+		raw[19] = nondetU8(tag + ".last")
+		assume(raw[0] != 0)
+		var id common.PeerId
+		if err := id.Deserialization(ocommon.NewZeroCopySource(raw[:])); err != nil {
+			panic(err)
+		}
+		return id
+	}
 	if param("idbytes") == 1 {
 		v := nondetU8(tag)
 		assume(v != 0)
@@ -64,8 +90,8 @@ func Harness_C37_routing_table() {
 			assert(near[i].ID != near[j].ID, "nearest-distinct")
 		}
 		if i > 0 {
-			da, db := target.Distance(near[i-1].ID), target.Distance(near[i].ID)
-			assert(bytes.Compare(da[:], db[:]) <= 0, "nearest-sorted-by-xor-distance")
+			da, db := c37Dist(target, near[i-1].ID), c37Dist(target, near[i].ID)
+			assert(bytes.Compare(da, db) <= 0, "nearest-sorted-by-xor-distance")
 		}
 	}
 	if param("withfind") == 0 {
@@ -82,3 +108,7 @@ func Harness_C37_routing_table() {
 		assert(member, "found-peer-is-a-member")
 	}
 }
+
+// Harness_C37_lastbyte: the same invariants with ids that vary in their first and last byte (spec idbytes=3),
+// so peers that differ only in the least significant id byte are covered.
+func Harness_C37_lastbyte() { Harness_C37_routing_table() }
